@@ -6,6 +6,7 @@ CONSTANTS
   DeleteByName = FALSE
   ClaimIgnoresCancel = FALSE
   PrefixCancellers = {"p1"}
+  BlockingSend = FALSE
   DropOnClaim = FALSE
   MaxRuns = 1000
 INVARIANTS AtMostOnce NoOverlap NoPanic NoLostRun NotDropped CancelBranchNoRun NameReusable NameSlotUnique SuccessorReachable
